@@ -8,19 +8,20 @@ import (
 )
 
 // Value is a boxed interpreter value:
-//   *Term            bool and all integer kinds (bit-vector of the Go width)
-//   float64/float32  concrete floats; *FSym symbolic float64 (limited)
-//   Str              strings (concrete or vector of byte terms)
-//   *Value           pointers (Go pointer to a cell); nil pointer = (*Value)(nil)
-//   Struct, Array    aggregates (slices of cells)
-//   []Value          slices (nil = nil slice)
-//   *Map             maps (nil *Map = nil map)
-//   Iface            interfaces
-//   *ssa.Function, *ssa.Builtin, *Closure   functions
-//   Tuple            multiple results
-//   *Chan            channels
-//   *SymPtr          address of a[i] with symbolic i over scalar elements
-//   UPtr             unsafe.Pointer wrapper
+//
+//	*Term            bool and all integer kinds (bit-vector of the Go width)
+//	float64/float32  concrete floats; *FSym symbolic float64 (limited)
+//	Str              strings (concrete or vector of byte terms)
+//	*Value           pointers (Go pointer to a cell); nil pointer = (*Value)(nil)
+//	Struct, Array    aggregates (slices of cells)
+//	[]Value          slices (nil = nil slice)
+//	*Map             maps (nil *Map = nil map)
+//	Iface            interfaces
+//	*ssa.Function, *ssa.Builtin, *Closure   functions
+//	Tuple            multiple results
+//	*Chan            channels
+//	*SymPtr          address of a[i] with symbolic i over scalar elements
+//	UPtr             unsafe.Pointer wrapper
 type Value interface{}
 
 type Struct []Value
